@@ -6,9 +6,10 @@ a fair round-robin schedule reaches.  Where the run stops in the state the prope
 (`HeldByThird`) the driver prints the token the harness prints and lets the environment end the
 connection that holds the subject up — as the harness does.  `HeldBySelf` is no exemption (since
 b77088f): the model reaches it only where the cause of the end cannot be noticed at all (`selffull
-keepalive`: the receiver waits because the incoming ring is completely full, no read is pending, the
-deadline is not armed — finding F8); the driver prints `held-up-by-self` there and makes the client
-go away, as the harness does.
+keepalive`, `selffull halfclose`: the receiver waits because the incoming ring is completely full, no read
+is pending, the deadline is not armed and the peer's end-of-stream is not read — finding F8); the driver
+prints `held-up-by-self` there and makes the client go away (`peerClose`, also enabled on a half-closed
+socket), as the harness does.
 
 The conditions are states the repaired code (`ReadFrom` after 8f682d1) is in once the harness has let
 the rings fill up: a receiver waits for space only with the incoming ring completely full (16 384
@@ -131,10 +132,12 @@ def outcome (cond cause order : String) : String :=
     let s1 := drain cfg fuel s0
     let s2 := match cause with
       | "close" => apply s1 .peerClose
-      -- the life-cycle model has no half-closed socket: its `peerClosed` makes reads AND writes fail.
-      -- For the code as it is that is the same thing one step later - the receiver closes the socket
-      -- when its read fails (`lifeRecvCalls`), which is what makes a blocked socket write fail
-      | "halfclose" => apply s1 .peerClose
+      -- the peer shuts down its sending direction only and neither reads nor closes (`Sock.peerShut`): the
+      -- broker's read returns end-of-stream, its writes still block.  What makes a blocked socket write fail
+      -- is the receiver closing the socket when its read fails (`lifeRecvCalls`, `Cfg.recvCloses`;
+      -- `C16_halfclose_torn_down`, `C16_halfclose_needs_receiver_close`); a receiver that is parked for ring
+      -- space does not read (`selffull`): `settle` finds `HeldBySelf` and lets the peer go away completely
+      | "halfclose" => apply s1 .peerShut
       | "srvclose" => serverClose s1
       | _ => s1
     let p := settle cause 6 { st := s2 }
